@@ -54,13 +54,17 @@ def run_vectors(case):
     for enc in case.get("encodings", []):
         res = {}
         encs = [encode(v, enc) for v in vecs]
+        pristine = [(i_.copy(), d_.copy()) for (i_, d_) in encs]
+        # the SAME encoded arrays are handed to every call of the case, as a user holding sparse vectors would do:
+        # a call that edits them corrupts the later ones (and is recorded)
         for name, f in SPARSE:
             for (i, j) in pairs:
                 (i1, d1), (i2, d2) = encs[i], encs[j]
-                a = (i1.copy(), d1.copy(), i2.copy(), d2.copy())
-                res["%s:%d%d" % (name, i, j)] = call(f, *a)
-                if not all(np.array_equal(p, q) for p, q in zip(a, (i1, d1, i2, d2))):
-                    out["mutated"].append("sparse_" + name)
+                res["%s:%d%d" % (name, i, j)] = call(f, i1, d1, i2, d2)
+                for k in (i, j):
+                    if not (np.array_equal(encs[k][0], pristine[k][0]) and np.array_equal(encs[k][1], pristine[k][1])):
+                        out["mutated"].append("sparse_" + name)
+                        encs[k] = (pristine[k][0].copy(), pristine[k][1].copy())
         out["sparse"].append(res)
     return out
 
@@ -70,8 +74,13 @@ def run_helpers(case):
     i1 = np.asarray(case["ind1"], dtype=it); d1 = np.asarray(case["data1"], dtype=np.float32)
     i2 = np.asarray(case["ind2"], dtype=it); d2 = np.asarray(case["data2"], dtype=np.float32)
     out = {"mutated": []}
-    for name, f in [("sum", D.sparse_sum), ("diff", D.sparse_diff), ("mul", D.sparse_mul), ("union", D.dense_union)]:
-        a = (i1.copy(), d1.copy(), i2.copy(), d2.copy())
+    shared = [i1.copy(), d1.copy(), i2.copy(), d2.copy()]      # one set of arrays for all helper calls of the case
+    for name, f in [("sum", D.sparse_sum), ("diff", D.sparse_diff), ("mul", D.sparse_mul), ("union", D.dense_union),
+                    ("sum_again", D.sparse_sum), ("diff_swapped", None)]:
+        a = tuple(shared)
+        if f is None:
+            f = D.sparse_diff
+            a = (shared[2], shared[3], shared[0], shared[1])
         try:
             r0, r1 = f(*a)
             r0, r1 = np.asarray(r0), np.asarray(r1)
@@ -82,8 +91,9 @@ def run_helpers(case):
                 out[name] = [[int(v) for v in r0], [int(v) for v in r1]]
         except Exception as e:  # noqa
             out[name] = {"err": type(e).__name__, "msg": str(e)[:200]}
-        if not all(np.array_equal(p, q) for p, q in zip(a, (i1, d1, i2, d2))):
+        if not all(np.array_equal(p, q) for p, q in zip(shared, (i1, d1, i2, d2))):
             out["mutated"].append(name)
+            shared = [i1.copy(), d1.copy(), i2.copy(), d2.copy()]
     return out
 
 
